@@ -271,7 +271,7 @@ package shaping
 //@   mode bv
 //@   ensures [valid] r.valid && r.runIdx == runIdx
 //@   ensures [reuses-only-same-run] implies(old(r.valid) && old(r.runIdx) == runIdx, sameslice(r.mapping, old(r.mapping)))
-//@   modifies unspecified
+//@   modifies r.mapping; r.runIdx; r.valid; all(glyphIndex)
 //
 // newBreaker initialises the segmenter for the paragraph (C06 covers the segmenter itself).
 //@ trusted newBreaker
@@ -319,7 +319,23 @@ package shaping
 //@ trusted RunIterator.Restore
 //@   params it
 //@   modifies nothing
-//@ trusted LineWrapper.wrapNextLine
+//@ trusted breaker.nextWordBreak
+//@   modifies *l; all(segmenter.LineIterator); all(segmenter.GraphemeIterator)
+//@ trusted breaker.nextGraphemeBreak
+//@   modifies *l; all(segmenter.LineIterator); all(segmenter.GraphemeIterator)
+//@ trusted wrapBuffer.markCandidateBest
+//@   modifies w.best; w.bestInLine; w.lineExhausted; all(Output)
+//
+// wrapNextLine, break policies (property C03): breaking inside a UAX #14 segment (the grapheme loop) is attempted only
+// if the policy allows it: never with Never; with WhenNecessary only when the segment cannot fit on a line by itself
+// (cannotFit), when the line is being truncated, or to fill the last permitted line before truncation.
+//@ func LineWrapper.wrapNextLine C03
+//@   mode bv
+//@   requires l.breaker != nil
+//@   assert_at call nextGraphemeBreak#1 : [grapheme-breaking-justified] l.config.BreakPolicy != Never && (result == truncated || result == newLineBeforeBreak || result == cannotFit) &&
+//@     | implies(result == newLineBeforeBreak && l.config.BreakPolicy == WhenNecessary, config.truncating)
+//@   loop 2 invariant [grapheme-breaking-justified] l.config.BreakPolicy != Never && (result == truncated || result == newLineBeforeBreak || result == cannotFit) &&
+//@     | implies(result == newLineBeforeBreak && l.config.BreakPolicy == WhenNecessary, config.truncating)
 //@   modifies unspecified
 //@ trusted LineWrapper.postProcessLine
 //@   modifies unspecified
@@ -353,6 +369,7 @@ package shaping
 //@ func LineWrapper.processBreakOption C04 C03
 //@   mode bv
 //@   requires l.breaker != nil
+//@   ensures [enum] result0 <= cannotFit
 //@   ensures [stale-option-invalid] implies(option.breakAtRune < old(l.lineStartRune), result0 == breakInvalid)
 //@   ensures [fits] implies(result0 == fits, lineWidth(l, result1) <= config.maxWidth && !(config.truncating && lineWidth(l, result1) > config.truncatedMaxWidth))
 //@   ensures [cannot-fit] implies(result0 == cannotFit, lineWidth(l, result1) > config.maxWidth && len(l.scratch.best) == 0)
@@ -360,4 +377,4 @@ package shaping
 //@   ensures [truncation] implies(result0 == endLine || result0 == truncated, config.truncating && lineWidth(l, result1) <= config.maxWidth && lineWidth(l, result1) > config.truncatedMaxWidth)
 //@   ensures [end-line-only-at-text-end] implies(result0 == endLine, result1.Runes.Count+result1.Runes.Offset == l.breaker.totalRunes && !l.config.TextContinues)
 //@   ensures [truncated-otherwise] implies(result0 == truncated, !(result1.Runes.Count+result1.Runes.Offset == l.breaker.totalRunes && !l.config.TextContinues))
-//@   modifies unspecified
+//@   modifies l.scratch.alt; l.scratch.altAdvance; l.mapper; all(glyphIndex); all(Output)
